@@ -620,9 +620,7 @@ class Engine:
             return VNone()
         if isinstance(c, (list, tuple)):
             items = [self.const_value(x) for x in c]
-            if isinstance(c, tuple):
-                return VTuple(items)
-            return VList(mk_vsq([box(x) for x in items]), "any")
+            return VTuple(items, is_list=isinstance(c, list))
         raise Unsupported(f"constant {c!r}")
 
     def ev_IfExp(self, e, st):
@@ -875,9 +873,10 @@ class Engine:
                     self.implicit_error(st, y != 0, "ZeroDivisionError", node, "division")
                     # the encoding (SMT div/mod) equals Python's floor semantics only for positive divisors
                     self.oblige(st, y > 0, "encoding-positive-divisor", f"L{node.lineno}")
-                # link the nonlinear product to the quotient/remainder
-                q, r = x / y, x % y
+                # symbolic divisor: uninterpreted quotient/remainder linked to the product at this use site
+                q, r = smt.pydiv(x, y), smt.pymod(x, y)
                 st.assume(z3.Implies(y > 0, z3.And(y * q + r == x, 0 <= r, r < y)))
+                return VInt(q if isinstance(op, ast.FloorDiv) else r)
             return VInt(x / y if isinstance(op, ast.FloorDiv) else x % y)
         if isinstance(op, ast.BitAnd):
             x, y = self.as_int(st, a, node), self.as_int(st, b, node)
@@ -1146,6 +1145,19 @@ class Engine:
         tgt = e.generators[0].target.id
         for s, src in self.ev(e.generators[0].iter, st):
             src = self.deref(s, src)
+            if isinstance(src, VTuple):
+                # statically known length: unroll (the element expression may call functions under contract)
+                states = [(s, [])]
+                for item in src.items:
+                    nxt = []
+                    for s1, acc in states:
+                        s1.env[tgt] = item
+                        for s2, v in self.ev(e.elt, s1):
+                            nxt.append((s2, acc + [v]))
+                    states = nxt
+                for s1, acc in states:
+                    out.append((s1, VTuple(acc, is_list=True)))
+                continue
             if isinstance(src, VRef) and isinstance(s.heap.get(src.ident), dict) and s.heap[src.ident].get("__kind__") == "emptylist":
                 out.append((s, self.new_list(s, [])))
                 continue
